@@ -18,6 +18,8 @@ from fractions import Fraction as F
 from .. import defreg, pintmachine as pm, reader, tlaval
 from ..engine import MachineryError
 
+GLINES_B = ["a = [A]", "x = 2 a", "y = 3 a", "w = [W]", "@group g2", "  x = 2 a", "@end", "@group g1 using g2", "@end", "@group g3", "@end",
+            "@system S1 using g1", "  a", "@end", "@system S2 using g2, g3", "  a", "@end"]
 GLINES = ["a = [A]", "x = 2 a", "y = 3 a", "w = [W]", "@group g1", "@end", "@group g2", "@end", "@group g3", "@end",
           "@system S1 using g1", "  a", "@end", "@system S2 using g2, g3", "  a", "@end"]
 
@@ -45,20 +47,23 @@ def membership(chk, thorough):
     import pint
     cfg = "MC_C14g.cfg"
     chk.tlc("laws-groups", "MC_C14g", cfg, args=[] if not thorough else [], timeout=1800)
-    wd = chk.workdir("gen-g")
-    dump = os.path.join(wd, "g.dump")
-    chk.tlc("gen-groups", "MC_C14g", "MC_C14g_gen.cfg", wd=wd, args=["-dump", dump], count=False)
-    behs = [st["hist"] for st in tlaval.parse_states(open(dump).read()) if len(st["hist"]) == 3]
-    os.remove(dump)
-    if len(behs) < 1000:
-        raise MachineryError("generator produced only %d behaviours" % len(behs))
-    ops_seen = set()
-    for hist in behs:
-        u = pint.UnitRegistry(GLINES)
+    behs = []
+    for cfgname, lines in (("MC_C14g_gen.cfg", GLINES), ("MC_C14g_genB.cfg", GLINES_B)):
+        wd = chk.workdir("gen-g" + cfgname[-5])
+        dump = os.path.join(wd, "g.dump")
+        chk.tlc("gen-groups" + cfgname[-5], "MC_C14g", cfgname, wd=wd, args=["-dump", dump], count=False)
+        got = [(st["hist"], lines) for st in tlaval.parse_states(open(dump).read()) if len(st["hist"]) == 3]
+        os.remove(dump)
+        if len(got) < 1000:
+            raise MachineryError("generator %s produced only %d behaviours" % (cfgname, len(got)))
+        behs += got
+    # vacuity is judged on what was generated (a replay stops at the first divergence of a behaviour)
+    ops_seen = {h["op"][0] for hist, _ in behs for h in hist}
+    for hist, GL in behs:
+        u = pint.UnitRegistry(GL)
         chk.case(tuple(repr(h["op"]) for h in hist), nontrivial=any(h["op"][0] != "query" for h in hist), sample={"ops": [h["op"] for h in hist]})
         for k, h in enumerate(hist):
             op = h["op"]
-            ops_seen.add(op[0])
             res = "ok"
             try:
                 if op[0] == "add_units":
@@ -76,7 +81,7 @@ def membership(chk, thorough):
             except ValueError:
                 res = "error"
             except (RecursionError, Exception) as e:
-                chk.diverge({"clause": "operation-raises", "op": op[0], "exc": type(e).__name__}, {"registry": GLINES, "ops": [x["op"] for x in hist[:k + 1]]})
+                chk.diverge({"clause": "operation-raises", "op": op[0], "exc": type(e).__name__}, {"registry": GL, "ops": [x["op"] for x in hist[:k + 1]]})
                 break
             exp_g = {g: set(v) for g, v in h["obs"]["groups"].items()}
             exp_s = {s: set(v) for s, v in h["obs"]["systems"].items()}
@@ -84,7 +89,7 @@ def membership(chk, thorough):
                 got_g = {g: set(u.get_group(g).members) for g in exp_g}
                 got_s = {s: set(u.get_system(s, False).members) for s in exp_s}
             except (RecursionError, Exception) as e:
-                chk.diverge({"clause": "members-raise", "op": op[0], "exc": type(e).__name__}, {"registry": GLINES, "ops": [x["op"] for x in hist[:k + 1]]})
+                chk.diverge({"clause": "members-raise", "op": op[0], "exc": type(e).__name__}, {"registry": GL, "ops": [x["op"] for x in hist[:k + 1]]})
                 break
             bad = None
             if res != h["res"]:
@@ -102,7 +107,7 @@ def membership(chk, thorough):
                         break
             if bad:
                 chk.diverge({"clause": bad[0], "op": op[0], "after_query": any(x["op"][0] == "query" for x in hist[:k])},
-                            dict(bad[1], registry=GLINES, ops=[x["op"] for x in hist[:k + 1]]))
+                            dict(bad[1], registry=GL, ops=[x["op"] for x in hist[:k + 1]]))
                 break
     chk.traces += len(behs)
     if not {"add_units", "remove_units", "add_groups", "remove_groups", "sys_add_groups", "sys_remove_groups", "query"} <= ops_seen:
